@@ -346,6 +346,8 @@ StateVector =
         if isinstance(new_frame, str):
             new_frame = get_frame(new_frame)
 
+        old_coord = np.array(self)
+
         if new_frame != self.frame:
             self.form = "cartesian"
             try:
@@ -356,7 +358,14 @@ StateVector =
                 self.form = old_form
 
         if self.cov is not None and self.cov.frame == old_frame:
-            self.cov.frame = new_frame
+            try:
+                self.cov.frame = new_frame
+            except Exception:
+                # The covariance can't follow (it is left untouched by its own
+                # setter): put the state vector back where it was
+                self.view(np.ndarray)[:] = old_coord
+                self._data["frame"] = old_frame
+                raise
 
     def as_frame(self, name, **kwargs):  # pragma: no cover
         """Register the orbit as frame.
